@@ -66,6 +66,7 @@ struct Th
   int turn;
   void *waitobj;
   int jointarget;
+  bool soft;      // yielded by the re-read heuristic: may be continued at the cost of a deviation
   bool timed;     // a timed wait: may time out when nothing else can run
   bool timedout;
   bool detached;
@@ -111,18 +112,24 @@ static int out_fd = -1;
 static __thread void *vw_pending;
 static __thread int vw_size;
 static __thread unsigned char vw_old[16];
+static unsigned long own_mods_any[MAXT];
 static inline void mod()
 {
   gmods++;
   last_mod_step = steps;
+  if (me >= 0)
+    own_mods_any[me]++;
 }
 // per-location write versions: "the same location re-read at the same program point with no
 // write to it in between" is what identifies a busy-wait iteration (a function of the
 // happens-before state only, see state hashing below)
 static std::unordered_map<uintptr_t, unsigned long> *wver;
+static unsigned long own_mods[MAXT];
 static inline void mod_at(const volatile void *a)
 {
   mod();
+  if (me >= 0)
+    own_mods[me]++;
   if (wver)
     (*wver)[(uintptr_t)a]++;
 }
@@ -478,6 +485,8 @@ static void schedule(const char *op, uintptr_t addr)
   std::sort(oth, oth + no, [](int a, int b) { return T[a].lastrun != T[b].lastrun ? T[a].lastrun < T[b].lastrun : a < b; });
   for (int i = 0; i < no; i++)
     en[n++] = oth[i];
+  if (n > 0 && T[me].st == YIELDED && T[me].soft)
+    en[n++] = me;  // last alternative: ignore the heuristic yield
   if (n == 0) {
     // nobody but yielders / timed waiters: a yield with nothing else to run is a no-op,
     // and time only passes (timed waits expire) when nothing else can happen
@@ -551,15 +560,20 @@ static inline void point(const char *op, const void *addr)
   if (active && me >= 0 && !in_rt)
     schedule(op, (uintptr_t)addr);
 }
-static void spin_yield(const char *op, const void *addr)
+// soft = recognised by the re-read heuristic only: the canonical schedule gives the other threads
+// a turn, but carrying on with this thread stays possible (one deviation), so no behaviour is lost
+// when the heuristic takes a polling loop that does real work for a busy-wait
+static void spin_yield(const char *op, const void *addr, bool soft = false)
 {
   if (!(active && me >= 0) || in_rt)
     return;
   nyields++;
   T[me].st = YIELDED;
+  T[me].soft = soft;
   schedule(op, (uintptr_t)addr);
   if (T[me].st == YIELDED)
     T[me].st = RUNNABLE;
+  T[me].soft = false;
 }
 // An atomic/volatile load repeated at the same program point with no modification of shared
 // state in between is a busy-wait iteration: treat it as a yield.
@@ -567,6 +581,7 @@ struct PcRec
 {
   uintptr_t addr;
   unsigned long ver1;  // write version of addr at the last read here, +1
+  unsigned long own;   // this thread's own modification count at that read
 };
 static __thread std::map<void *, PcRec> *pcmap;
 static void point_read(const char *op, const void *addr, void *pc)
@@ -583,13 +598,16 @@ static void point_read(const char *op, const void *addr, void *pc)
     auto it = wver->find((uintptr_t)addr);
     if (it != wver->end())
       cur = it->second;
+    // a busy-wait iteration: the same location re-read at the same program point, unchanged,
+    // and this thread has modified nothing itself since the last time it was here
     PcRec &e = (*pcmap)[pc];
-    spin = e.addr == (uintptr_t)addr && e.ver1 == cur + 1;
+    spin = e.addr == (uintptr_t)addr && e.ver1 == cur + 1 && e.own == own_mods_any[me];
     e.addr = (uintptr_t)addr;
     e.ver1 = cur + 1;
+    e.own = own_mods_any[me];
   }
   if (spin)
-    spin_yield(op, addr);
+    spin_yield(op, addr, true);
   else
     schedule(op, (uintptr_t)addr);
 }
